@@ -184,7 +184,10 @@ impl Records {
     /// Put records into the JSON string representation, if indent=0 use unpretty form
     pub fn to_json(&self,indent: Option<u16>) -> String {
         let mut json_map = json::JsonValue::new_object();
-        for (r,l) in &self.map {
+        // emit records in ascending order, not in the hash map's (per-process) iteration order
+        let mut ordered: Vec<(&usize,&String)> = self.map.iter().collect();
+        ordered.sort();
+        for (r,l) in ordered {
             let mut json_array = json::JsonValue::new_array();
             for line in l.lines() {
                 json_array.push(line).expect("error while building JSON array");
@@ -208,7 +211,9 @@ impl Records {
 /// derives `to_string`, so the structure can be converted to `String`.
 impl fmt::Display for Records {
     fn fmt(&self,f: &mut fmt::Formatter<'_>) -> fmt::Result {
-        for (idx,fields) in &self.map {
+        let mut ordered: Vec<(&usize,&String)> = self.map.iter().collect();
+        ordered.sort();
+        for (idx,fields) in ordered {
             write!(f,"Record {}",idx).expect("format error");
             for field in fields.lines() {
                 write!(f,"    {}",field).expect("format error");
